@@ -120,5 +120,21 @@ theorem act_Jv (q : Quat K) (t p w : V3 K) :
       ((liftV (t.add (q.toRot.mulVec p))).add (epsV (q.toRot.mulVec w))) := by
   apply v3ext <;> apply Dual.ext' <;>
     simp [Quat.toRot, SO3.liftQ, liftV, epsV, M3.mulVec, V3.add, sum3] <;> ring1
+/-- **SE3 inverse, translation part** (`J_minv_m = −Ad_X`): the translation of `(X ⊞ εd)⁻¹` is that of
+    `X⁻¹ ⊞ ε(−Ad_X d)`, with the first block row `[R | [t]× R]` of the model's `adj X`. -/
+theorem inverse_J_trans (q : Quat K) (t dl da : V3 K) (hq : q.sqn = 1) :
+    ((((SO3.liftQ q).mul (SO3.pertQ da)).conj.toRot.mulVec
+        (((SO3.liftQ q).toRot.mulVec (epsV dl)).add (liftV t))).neg) =
+      (liftV ((q.conj.toRot.mulVec t).neg)).add
+        ((SO3.liftQ q.conj).toRot.mulVec (epsV (((q.toRot.mulVec dl).add (((M3.skew t).mul q.toRot).mulVec da)).neg))) := by
+  unfold Quat.sqn at hq
+  apply v3ext <;> apply Dual.ext' <;>
+    simp [Quat.toRot, Quat.mul, Quat.conj, SO3.liftQ, SO3.pertQ, liftV, epsV, M3.mulVec, M3.mul, M3.skew, V3.add, V3.neg, sum3] <;>
+    ring_nf <;>
+    first
+      | done
+      | linear_combination (-4*da.y*q.x*q.z*t.x - 4*da.y*q.y*q.z*t.y - 4*da.y*q.z^2*t.z + da.y*t.z + 4*da.z*q.x*q.y*t.x + 4*da.z*q.y^2*t.y + 4*da.z*q.y*q.z*t.z - da.z*t.y) * hq
+      | linear_combination (4*da.x*q.x*q.z*t.x + 4*da.x*q.y*q.z*t.y + 4*da.x*q.z^2*t.z - da.x*t.z - 4*da.z*q.x^2*t.x - 4*da.z*q.x*q.y*t.y - 4*da.z*q.x*q.z*t.z + da.z*t.x) * hq
+      | linear_combination (-4*da.x*q.x*q.y*t.x - 4*da.x*q.y^2*t.y - 4*da.x*q.y*q.z*t.z + da.x*t.y + 4*da.y*q.x^2*t.x + 4*da.y*q.x*q.y*t.y + 4*da.y*q.x*q.z*t.z - da.y*t.x) * hq
 end SE3
 end Manif
